@@ -163,6 +163,11 @@ func (g *bGen) genCase(version uint32, idx int) *bCase {
 				NodeKey:     bKeyHex(bKeyTheirNode + rng.Intn(16)),
 				MultiSigKey: bKeyHex(bKeyTheirMS + rng.Intn(16)),
 				UnitsFilled: uint32(1 + rng.Intn(20)),
+				Version:     6,
+			}
+			// half of the counterparty orders were created by older software
+			if rng.Intn(2) == 0 {
+				t.Version = uint32(rng.Intn(7))
 			}
 			if o.AuctionType == 1 {
 				t.UnitsFilled = 1
@@ -323,7 +328,26 @@ func (g *bGen) reproposal(prev *bCase) *bCase {
 		return c
 	}
 	h := &bHostile{expiry: map[int]uint32{}, version: map[int]uint32{}, dup: -1, keepValues: true}
-	switch rng.Intn(6) {
+	switch rng.Intn(7) {
+	case 6:
+		// same batch key, another new expiry in the diff, but the account output still
+		// pays to the script of the previously proposed expiry
+		c.Devs = []string{"reproposal-stale-expiry-script"}
+		changed := false
+		for i := range c.Msg.Diffs {
+			d := &c.Msg.Diffs[i]
+			if bSupportsExt(c.Msg.Version) && d.OutpointIndex >= 0 {
+				if d.NewExpiry == 0 {
+					d.NewExpiry = c.Best + uint32(144+rng.Intn(int(bMaxAccountExpiry)-144))
+				} else {
+					d.NewExpiry = c.Best + 144 + (d.NewExpiry-c.Best+uint32(1+rng.Intn(1000)))%(bMaxAccountExpiry-144)
+				}
+				changed = true
+			}
+		}
+		if !changed {
+			c.Devs = []string{"reproposal-resend"}
+		}
 	case 0:
 		c.Devs = []string{"reproposal-resend"}
 	case 1:
@@ -920,6 +944,28 @@ func (g *bGen) deviate(c *bCase) {
 			}
 			return true
 		}},
+		{"their-order-version", func() bool {
+			_, t, _ := pickTheir()
+			if t == nil {
+				return false
+			}
+			t.Version = uint32(rng.Intn(8))
+			return true
+		}},
+		{"their-duration-old-version", func() bool {
+			// another lease duration on an order of a version that pre-dates duration buckets
+			_, t, _ := pickTheir()
+			if t == nil {
+				return false
+			}
+			t.Version = uint32(rng.Intn(2))
+			if rng.Intn(4) == 0 {
+				t.Duration = 0
+			} else {
+				t.Duration = otherDuration(t.Duration)
+			}
+			return true
+		}},
 		{"their-duration", func() bool {
 			_, t, _ := pickTheir()
 			if t == nil {
@@ -1381,14 +1427,14 @@ func (g *bGen) deviate(c *bCase) {
 		"C01": {"batch-version", "batch-version-flag", "height-hint-edge", "height-wrap", "clearing-price",
 			"market-duration", "move-order-to-other-market", "same-nonce-in-two-markets", "our-rate", "our-duration", "our-auction-type",
 			"our-side", "our-unfulfilled", "our-min-match", "allow-list", "deny-list", "their-side",
-			"their-duration", "their-auction-type", "their-rate", "their-node-key", "their-units", "extra-match",
+			"their-duration", "their-duration-old-version", "their-order-version", "their-auction-type", "their-rate", "their-node-key", "their-units", "extra-match",
 			"drop-match", "unknown-our-nonce"},
 		"C02": {"fee-rate", "exec-base", "exec-rate", "clearing-price", "our-self-balance", "their-self-balance",
 			"their-units", "diff-balance", "diff-balance-and-output", "diff-state", "diff-index", "diff-new-expiry",
 			"diff-new-version", "diff-acct-key", "diff-drop", "diff-duplicate-plain", "diff-uninvolved-account",
 			"acct-value", "acct-version", "acct-expiry", "acct-batch-key", "acct-secret", "acct-auctioneer-key",
 			"out-value", "out-script", "out-wrong-script-kind", "our-acct-key"},
-		"C03": {"out-value-alt-balance", "out-script-related-keys", "our-chan-type", "their-chan-type", "our-key-index", "our-sidecar", "their-multisig-key",
+		"C03": {"their-order-version", "out-value-alt-balance", "out-script-related-keys", "our-chan-type", "their-chan-type", "our-key-index", "our-sidecar", "their-multisig-key",
 			"our-self-balance", "their-self-balance", "their-units", "out-value", "out-script", "out-swap-scripts",
 			"out-drop", "out-wrong-script-kind", "extra-match"},
 	}
